@@ -221,6 +221,66 @@ func (fc *fsCtx) ruleAllocator2(r *Report, im *fsImpl) {
 		})
 	}
 	r.Check("R14b", im.Name+" allocates fresh inodes", im.Named.Obj().Pos(), nFresh >= 1, fmt.Sprintf("%d insertions, %d with a fresh key", nIns, nFresh))
+	// the allocator is fresh only while every number it hands out is entered into the counted map: a function
+	// that obtains a fresh number and returns normally has inserted it (in the same critical section) on every
+	// path to that return — otherwise the next allocation returns the same number for another file
+	for _, f := range region {
+		var fresh []ssa.Value
+		p.instrs(f, func(b *ssa.BasicBlock, i int, in ssa.Instruction) {
+			if v, ok := in.(ssa.Value); ok {
+				if c, isCall := in.(*ssa.Call); isCall && isFreshInodeKey(sk(v), cf) && len(refs(v)) > 0 {
+					// a helper that allocates and inserts is judged in its own body; only the bare
+					// allocator (no map update of its own) leaves the insertion to its caller
+					bare := true
+					if cal := calleeOf(&c.Call); cal != nil {
+						p.instrs(cal, func(b2 *ssa.BasicBlock, i2 int, in2 ssa.Instruction) {
+							if _, isMU := in2.(*ssa.MapUpdate); isMU {
+								bare = false
+							}
+						})
+					}
+					if bare {
+						fresh = append(fresh, v)
+					}
+				}
+				if bo, isBin := in.(*ssa.BinOp); isBin && isFreshInodeKey(sk(bo), cf) && len(refs(v)) > 0 && !fc.helperScope(im)[f] {
+					fresh = append(fresh, v)
+				}
+			}
+		})
+		for _, v := range fresh {
+			if fc.helperScope(im)[f] && len(f.Blocks) <= 2 {
+				continue // the allocator helper itself
+			}
+			var ins []*ssa.MapUpdate
+			p.instrs(f, func(b *ssa.BasicBlock, i int, in ssa.Instruction) {
+				if mu, ok := in.(*ssa.MapUpdate); ok {
+					if fld, ok := fc.mapFieldOf(im, mu.Map); ok && fld == cf && sk(mu.Key) == sk(v) {
+						ins = append(ins, mu)
+					}
+				}
+			})
+			okIns := len(ins) > 0
+			vin := v.(ssa.Instruction)
+			for _, b := range f.Blocks {
+				ret, isRet := b.Instrs[len(b.Instrs)-1].(*ssa.Return)
+				if !isRet || !(vin.Block() == b || vin.Block().Dominates(b)) {
+					continue
+				}
+				dom := false
+				for _, mu := range ins {
+					if dominatesInstr(mu, ret) {
+						dom = true
+					}
+				}
+				if !dom {
+					okIns = false
+				}
+			}
+			r.Check("R14b", fmt.Sprintf("%s.%s enters the number it allocates into %s", im.Name, f.Name(), cf), instrPos(vin), okIns,
+				fmt.Sprintf("%s obtains a fresh number %s and can return without an insertion %s[that number] = …: the allocator counts the entries of %s, so the next file gets the same number", f.Name(), sk(v), cf, cf))
+		}
+	}
 }
 
 // ---------------------------------------------------------------------------
@@ -753,6 +813,14 @@ func (fc *fsCtx) ruleAtomicCreateDir2(r *Report, dir *fsImpl, full bool) {
 			if e.Key == "" || !strings.Contains(stage, e.Key) {
 				continue
 			}
+			// … and only if each call moves it: the increment is a non-zero constant
+			if ci, ok := e.In.(ssa.CallInstruction); ok {
+				args := ci.Common().Args
+				if d, isC := constInt(args[len(args)-1]); len(args) > 0 && (!isC || d == 0) {
+					uniq = false
+					badUniq = fmt.Sprintf("the counter in the staging path is advanced by %s: it does not change from call to call, so concurrent calls for one name share the temporary file", sk(args[len(args)-1]))
+				}
+			}
 			if ci, ok := e.In.(ssa.CallInstruction); ok && len(ci.Common().Args) > 0 && !sharedAddr(ci.Common().Args[0]) {
 				uniq = false
 				badUniq = fmt.Sprintf("the counter %s that makes the staging path unique lives in a local copy (value receiver or local variable): every call increments its own copy, so concurrent calls for one name share the temporary file", e.Args[0])
@@ -1017,4 +1085,72 @@ func sharedAddr(v ssa.Value) bool {
 		}
 	}
 	return false
+}
+
+// ruleCreateResult (R12c): Create reports failure exactly when the name exists. Every place that fixes the boolean
+// result of Create (a return of a constant, or a store of a constant into the named result) is judged by the
+// facts that dominate it: under "the name exists" (a hit in the directory map; EEXIST from the exclusive open)
+// the constant is false, under "it does not" (a miss; a nil error) it is true.
+func (fc *fsCtx) ruleCreateResult(r *Report, im *fsImpl, df string) {
+	p := fc.p
+	f := im.Methods["Create"]
+	if f == nil {
+		return
+	}
+	n := 0
+	var rm map[*ssa.BasicBlock]relSet
+	judge := func(in ssa.Instruction, v ssa.Value) {
+		c, ok := v.(*ssa.Const)
+		if !ok || c.Value == nil {
+			return
+		}
+		b, isB := c.Type().Underlying().(*types.Basic)
+		if !isB || b.Kind() != types.Bool {
+			return
+		}
+		val := c.Value.String() == "true"
+		exists, absent := false, false
+		for k := range p.RelsAt(rm, in) {
+			switch {
+			case df != "" && strings.Contains(k, "."+df+"[") && strings.HasSuffix(k, "#1 == true"),
+				strings.HasPrefix(k, "17 == ") && strings.Contains(k, "Openat("):
+				exists = true
+			case df != "" && strings.Contains(k, "."+df+"[") && (strings.HasSuffix(k, "#1 == false") || strings.HasPrefix(k, "false == ")),
+				strings.Contains(k, "Openat(") && strings.HasSuffix(k, "#1 == nil"):
+				absent = true
+			}
+		}
+		if !exists && !absent {
+			return
+		}
+		n++
+		r.Check("R12c", fmt.Sprintf("%s.Create reports %v when the name %s", im.Name, !exists, map[bool]string{true: "exists", false: "does not exist"}[exists]), instrPos(in),
+			val == !exists, fmt.Sprintf("Create's success result is %v although the name %s", val, map[bool]string{true: "already exists: the caller is told it created the file", false: "did not exist: the caller is told the creation failed"}[exists]))
+	}
+	// Create itself and the helpers it delegates to (a *Locked body, a shared lookup-and-create)
+	for _, g := range p.region([]*ssa.Function{f}) {
+		if g != f && !fc.helperScope(im)[g] {
+			continue
+		}
+		if g.Signature.Results().Len() != 2 {
+			continue
+		}
+		g := g
+		rm = p.Rels(g)
+		p.instrs(g, func(b *ssa.BasicBlock, i int, in ssa.Instruction) {
+			switch x := in.(type) {
+			case *ssa.Return:
+				if len(x.Results) == 2 {
+					judge(in, x.Results[1])
+				}
+			case *ssa.Store:
+				if al, ok := x.Addr.(*ssa.Alloc); ok && al.Comment == g.Signature.Results().At(1).Name() && al.Comment != "" {
+					judge(in, x.Val)
+				}
+			}
+		})
+	}
+	if n < 2 {
+		r.Unknown("R12c", im.Name+".Create result", f.Pos(), fmt.Sprintf("%d places fix Create's boolean result under a fact about the name's existence (both outcomes expected)", n))
+	}
 }
